@@ -115,8 +115,8 @@ var c18Templates = map[string]string{
 	"verb.js":         "{%- verbatim -%} '{{ x }}' {%- endverbatim -%}'{{ x }}'",
 	// what a call returns is a function of the template and the context, also when a filter is handed a hash
 	// whose keys overlap
-	"replace.txt":     "{{ 'abcabc'|replace({'a': '1', 'ab': '2', 'abc': '3', 'b': '4'}) }}|{{ x|replace({'a': 'A', 'al': 'AL', 'p': 'P', 'pl': 'PL', 'ain': '!'}) }}",
-	"tests.txt":       "{{ 4 is pos }}{{ 0 is not pos }}{% for i in items if i %}{{ loop.index }}{{ i }}{% else %}none{% endfor %}",
+	"replace.txt": "{{ 'abcabc'|replace({'a': '1', 'ab': '2', 'abc': '3', 'b': '4'}) }}|{{ x|replace({'a': 'A', 'al': 'AL', 'p': 'P', 'pl': 'PL', 'ain': '!'}) }}",
+	"tests.txt":   "{{ 4 is pos }}{{ 0 is not pos }}{% for i in items if i %}{{ loop.index }}{{ i }}{% else %}none{% endfor %}",
 }
 
 // c18Shared / c18SharedMap are read-only values that every context refers to (the same Go slice, with spare
